@@ -27,7 +27,7 @@ PROPS = {
                 rule='random grammars (1-5 nonterminals, nullable/recursive/ambiguous/error shapes) x sampled sentences, prefixes, mutations, random strings; every input parsed at lookahead 0,1,2 with random one_parse/cost and recovery on/off; non-trivial = distinct case text with at least one judged parse',
                 assumptions=COMMON_ASSUME + ['accepts_iff_sentence is proved for the level-0/1 model and accepts2_iff_sentence for the level-2 model, for every grammar readGrammar accepts (Props/Accepted.lean); recovery-on runs of non-sentences are judged by the recovery model; the set construction of build_new_set / expand_new_start_set / set_insert (start, derived and initial situations, cores shared by start situations) is modelled step for step at levels 0/1 (Model/BuildSet.lean) and proved to compute the abstract sets (buildPLC_eq_buildPL, acceptsC_iff_sentence); the tie compares the situations of every set with multiplicity, their order is only counted']),
     'C02': dict(level='proof', theorem_modules=['C02', 'Accepted', 'MakeParse', 'MakeParseSound', 'BuildSet'], min_theorems=30, tags=['C02'], crash_counts=True,
-                gen=parse_family('C02', 3000, 40000), flavours=['c'],
+                gen=parse_family('C02', 3000, 40000), flavours=['c', 'c-weak'],
                 rule='random grammars with random translations (permuted, partial, nil-padded, pass-through, empty); sentences <= 7 tokens; one_parse=1 cost=0; tree compared with the enumerated translations of all derivations',
                 assumptions=COMMON_ASSUME + ['enumeration capped at 3000 derivations per input and 9 tokens (depth_bound: the enumerator is complete for every accepted grammar)', 'C02 is a theorem about the step-for-step models: for every grammar readGrammar accepts and every sentence, the model of make_parse in one-parse mode, run on the parse list of the model of build_pl (levels 0/1), ends within an explicit fuel bound with a table without ALT node that denotes exactly the translation of a derivation of the input, TERM nodes carrying code and position of their tokens (accepted_makeParse_one, makeParse_one_sound, makeParse_one_total, makeParse_one_terms); the two step models are tied to the C code on every parse (identical exports)']),
     'C03': dict(level='proof', theorem_modules=['C03', 'C02', 'MakeParse', 'MakeParseSound', 'MakeParseTotal', 'HeapWf', 'MakeParseComplete'], min_theorems=30, tags=['C03'], crash_counts=True,
@@ -35,7 +35,7 @@ PROPS = {
                 rule='as C02 with one_parse=0: set of trees denoted by the DAG vs set of translations of all derivations',
                 assumptions=COMMON_ASSUME + ['the sound half of C03 is a theorem about the step model of make_parse (makeParse_all_sound: every tree the all-parses forest denotes is the translation of a derivation of the input, for every accepted grammar and input); the all-parses run always ends with a well-formed acyclic forest (makeParse_all_total with the explicit fuel mpAllFuel, makeParse_heap_wf, makeParse_all_not_cyclic; the fuel is exponential and must be: known finding D31; polynomial when no pass-through rule derives itself: makeParse_all_total_poly); the complete half is a theorem for event-free runs (makeParse_all_complete_eventfree: reuse = 0 and origins = 0, the two counters of the mpev hook line, imply that every translation is denoted) and false otherwise (known finding D9, makeParse_forest_incomplete: the two events are exactly D9a / D9b); it is judged per run, with full force on event-free runs and with the attribution rule of known_findings.txt on runs with an event']),
     'C04': dict(level='proof', theorem_modules=['C04', 'PruneC', 'HeapWf', 'MakeParseTotal', 'RecoveredCost'], min_theorems=30, tags=['C04'], crash_counts=True,
-                gen=lambda seed, tier: parse_family('C04', 3000, 40000)(seed, tier) + capacity_cases(seed, ('L-amb', 'L-deep')), flavours=['c'],
+                gen=lambda seed, tier: parse_family('C04', 3000, 40000)(seed, tier) + capacity_cases(seed, ('L-amb', 'L-deep')), flavours=['c', 'c-weak'],
                 rule='random grammars with costs 0-5 (ties included); sentences <= 7 tokens; cost flag on, one_parse in {0,1}, parse_free given or NULL; denoted set vs argmin of total cost over all translations, every cost field vs the additive law',
                 assumptions=COMMON_ASSUME + ['prune theorems are about the Lean pruning model of a forest (Spec/Forest.lean); find_minimal_translation itself (prune_to_minimal with the sign of the cost field as visited flag and the memo table of alternative chains, traverse_pruned_translation, the freeing loop) is modelled step for step on the heap of the make_parse model (Model/PruneC.lean) and proved to denote exactly prune of the unfolded forest, to restore every cost field, and to free exactly the cells that became unreachable, each once (pruneC_denote, pruneC_minimal_all/one, pruneC_costs_restored, pruneC_frees, pruneC_memo_sound) under the heap well-formedness WfHeap, which is proved for every heap the make_parse model builds on the parse list of an accepted input (makeParse_heap_wf; acyclicity from a rank by span length and unit steps); accepted_cost_parse composes the chain for every accepted grammar and sentence: every tree of the forest is a translation, the pruned result denotes exactly the minimal-cost trees of the forest make_parse built (not of all translations: D9) with accumulated cost fields, and the freed cells are exactly those that became unreachable, each once; accepted_cost_parse_total removes the last hypothesis (the all-parses run of the make_parse model always ends: makeParse_all_total); the tie runs both models on the dumped parse list and compares the exported forest and the number of freed blocks']),
     'C06': dict(level='proof', theorem_modules=['C06', 'C01', 'RecoveryAccepted'], min_theorems=12, tags=['C06'], crash_counts=True,
@@ -57,7 +57,7 @@ PROPS = {
                 rule='each input parsed at lookahead -3,0,1,2,7 and at several debug levels with otherwise identical flags: all observables (rc, callbacks, ambiguity flag, denoted tree set with costs) must be identical; goto-cache self-check hook on every parse',
                 assumptions=COMMON_ASSUME + ['verdict_indep_of_la012 / firstError_indep_of_la012 cover all three levels (level 2: accepts2_iff_sentence); the level-2 set construction of the C code (contexts, the in-place context fixpoint of expand_new_start_set) is modelled step for step (Model/BuildSet2.lean) and proved to compute the level-2 set model (buildPLC2_eq_buildPL2, ctxLoop_least_fixpoint, ctxLoop_order_irrelevant, acceptsC_indep_of_la012)']),
     'C05': dict(level='proof', theorem_modules=['C05', 'MakeParseSound', 'MakeParseFlag'], min_theorems=24, tags=['C05'], crash_counts=True,
-                gen=parse_family('C05', 3000, 40000), flavours=['c'],
+                gen=parse_family('C05', 3000, 40000), flavours=['c', 'c-weak'],
                 rule='ambiguity flag vs number of derivations / distinct translations, one_parse in {0,1}',
                 assumptions=COMMON_ASSUME + ['C05 is a theorem about the step models in both modes (Props/MakeParseFlag.lean): the flag is set only if the input has two different derivations (makeParse_one_amb_sound, makeParse_all_amb_sound: no hypothesis on duplicates in the sets -- an item held twice by a set of the build_pl model has two different derivations, dup_two_kids), and two derivations with different translations force it (makeParse_one_amb_complete, makeParse_all_amb_complete; accepted_amb_flag for every accepted grammar and user tokens); an input containing the code of `error` itself is outside these theorems (the example errTokGrammar shows the flag can stay off there) and outside the property (declared terminal codes of the user)']),
     'C10': dict(level='proof', theorem_modules=['C10', 'Generated', 'AnalysisC'], min_theorems=24, tags=['C10'], crash_counts=True,
@@ -93,7 +93,7 @@ PROPS = {
                 technique='sanitizer-instrumented exploration driven by the same generators; Lean theorems only for the modelled index/bounds logic (partial)'),
     'C13': dict(level='proof', theorem_modules=['C13', 'PruneC', 'HeapWf', 'NoGarbage'], min_theorems=24, tags=['C13'], crash_counts=True,
                 gen=lambda seed, tier: gen.gen_history_cases(seed, 4000 if tier == 'thorough' else 1000) +
-                                       gen.gen_parse_cases(seed + 7, 6000 if tier == 'thorough' else 1500, 'C13'), flavours=['c'],
+                                       gen.gen_parse_cases(seed + 7, 6000 if tier == 'thorough' else 1500, 'C13'), flavours=['c', 'c-weak'],
                 rule='every caller-side parse_alloc / parse_free / termcb event of every parse is logged with block ids: frees must hit live blocks of the same parse exactly once, everything reachable from the root must lie in live blocks (walk before and after yaep_free_grammar under ASan with real frees), yaep_free_tree must release all blocks of the parse and call termcb once per TERM node; definitions are handed over as heap copies that are scribbled and freed right after the defining call',
                 assumptions=COMMON_ASSUME + ['that the C pointer graph is the exported node table is observed, not proved; partial: memory effects are runtime truth (ASan)']),
     'C14': dict(level='proof', theorem_modules=['C14', 'SitTable'], min_theorems=8, tags=['C14', 'C15', 'C01', 'C02', 'C05', 'C06', 'C07', 'C10', 'C13', 'C09'], crash_counts=True,
